@@ -40,6 +40,10 @@ DEMOS = {
     ("C17", "change2"): ("sh", "bash {out}/demo/run.sh 2>&1 | tail -25; exit ${PIPESTATUS[0]}", None),
     ("C18", "change1"): ("sh", "sh {out}/demo/run_demo.sh 2>&1 | tail -25; exit ${PIPESTATUS[0]}", None),
     ("C18", "change2"): ("sh", "sh {out}/demo/run_demo.sh 2>&1 | tail -25; exit ${PIPESTATUS[0]}", None),
+    ("C19", "change1"): ("sh", "bash {out}/demo/run.sh 2>&1 | tail -25; exit ${PIPESTATUS[0]}", None),
+    ("C19", "change2"): ("sh", "bash {out}/demo/run.sh 2>&1 | tail -25; exit ${PIPESTATUS[0]}", None),
+    ("C01r2", "change1"): ("sh", "python3 {out}/demo/demo.py 2>&1 | tail -25; exit ${PIPESTATUS[0]}", None),
+    ("C01r2", "change2"): ("sh", "python3 {out}/demo/demo.py 2>&1 | tail -25; exit ${PIPESTATUS[0]}", None),
 }
 
 
